@@ -306,10 +306,12 @@ pub fn run(ctx: &mut Ctx) {
         let mut nodes: Option<Vec<NodeX>> = None;
         let mut made = 0u64;
         for case in ctx.cases(10_000, 2_000_000) {
-            if nodes.is_none() || made % 400 == 399 {
+            if nodes.is_none() || made % 4000 == 3999 {
                 if let Some(old) = nodes.take() {
                     for mut n in old {
                         let _ = n.actor.verif_shutdown().await;
+                        // release the sockets before new endpoints are bound
+                        n._ep.close().await;
                     }
                 }
                 let mut v = vec![];
@@ -369,6 +371,7 @@ pub fn run(ctx: &mut Ctx) {
         if let Some(old) = nodes.take() {
             for mut n in old {
                 let _ = n.actor.verif_shutdown().await;
+                n._ep.close().await;
             }
         }
     });
